@@ -70,8 +70,15 @@ def main(argv):
                     if rep % 3 == 2 and len(servers) > 1:
                         # the same server set reached by growing the client: built with the first server only, the others added one by one
                         hc = HashClient(servers[:1], socket_module=S.sm, key_prefix=pfx, use_pooling=pooling, default_noreply=False, retry_attempts=0, dead_timeout=0, allow_unicode_keys=au)
-                        for extra_ in servers[1:]:
-                            hc.add_server(extra_)
+                        for j_, extra_ in enumerate(servers[1:]):
+                            if isinstance(extra_, tuple) and (rep + j_) % 2 == 0:
+                                hc.add_server(extra_[0], extra_[1])          # the two-argument spelling of the same server
+                            else:
+                                hc.add_server(extra_)
+                        want_names_ = sorted(HashClient(servers, socket_module=S.sm).clients.keys())
+                        if sorted(hc.clients.keys()) != want_names_ or sorted(hc.hasher.nodes) != want_names_:
+                            ctx.violation("a client grown server by server (also through add_server(host, port)) does not hold the server set of one built with the whole list",
+                                          {"servers": servers, "clients": sorted(hc.clients.keys()), "rotation": sorted(hc.hasher.nodes), "built_at_once": want_names_}, tags=["grown"])
                     else:
                         hc = HashClient(servers, socket_module=S.sm, key_prefix=pfx, use_pooling=pooling, default_noreply=False, retry_attempts=0, dead_timeout=0, allow_unicode_keys=au)
                     if rep % 3 == 1:
